@@ -10,6 +10,16 @@ import xarray as xr
 from vt.symreal import stubs as ST
 
 
+def _fcut(da, i, w):
+    """a frequency between node i and node i+1 of the (sorted) frequency axis: valid cutoffs on every grid."""
+    f = np.sort(np.asarray(da.freq.values, dtype=float))
+    if len(f) < 2:
+        return float(f[0])
+    i = i % (len(f) - 1) if i >= 0 else len(f) + i
+    i = min(max(i, 0), len(f) - 2)
+    return float(f[i] + w * (f[i + 1] - f[i]))
+
+
 def _peak():
     return ST.peak_stubs()
 
@@ -49,12 +59,12 @@ OPS = {
     "interp": dict(fn=lambda da, a: da.spec.interp(freq=np.array([0.07, 0.1, 0.3]), dir=np.array([10.0, 100.0, 350.0])), stubs=_interp),
     "rotate": dict(fn=lambda da, a: da.spec.rotate(45.0), stubs=_interp),
     "rotate_bin": dict(fn=lambda da, a: da.spec.rotate(float(np.min(np.diff(np.sort(np.asarray(da.dir.values, dtype=float) % 360.0))))), stubs=_interp),   # by one whole bin
-    "split": dict(fn=lambda da, a: da.spec.split(fmin=0.075, fmax=0.31), stubs=lambda: [ST.chunk_identity]),
+    "split": dict(fn=lambda da, a: da.spec.split(fmin=_fcut(da, 0, 0.5), fmax=_fcut(da, -2, 0.55)), stubs=lambda: [ST.chunk_identity]),   # off-node cutoffs inside the grid
     "split_dir": dict(fn=lambda da, a: da.spec.split(dmin=40.0, dmax=200.0), stubs=lambda: [ST.chunk_identity]),
     # --- rule based partitions
     "ptm4": dict(fn=lambda da, a: da.spec.partition.ptm4(a["wspd"], a["wdir"], a["dpt"], agefac=1.7), wind=True),
     "ptm5": dict(fn=lambda da, a: da.spec.partition.ptm5(0.15), stubs=_interp),
-    "bbox": dict(fn=lambda da, a: da.spec.partition.bbox([dict(fmin=0.07, fmax=0.25, dmin=50.0, dmax=200.0), dict(fmin=0.3, dmin=190.0)])),
+    "bbox": dict(fn=lambda da, a: da.spec.partition.bbox([dict(fmin=_fcut(da, 0, 0.4), fmax=_fcut(da, -2, 0.25), dmin=50.0, dmax=200.0), dict(fmin=_fcut(da, -2, 0.5), dmin=190.0)])),
 }
 
 CHEAP = ["hs", "oned", "momf1", "momd1", "tm01", "goda", "uss_x", "mss", "crsd", "stats", "to_energy"]
